@@ -90,7 +90,7 @@ MANIFEST = {
             "in batches of 2..8 at varying positions, among copies and among strangers, for AttentionModelPolicy on 13 envs "
             "(batch/instance/layer norm), PointerNetwork, HAM, SymNCO, MDAM, MatNet (randomness pinned), PolyNet and L2D on "
             "FJSP/JSSP: identical actions, rewards within 1e-5, log-likelihoods within 1e-4. Exploration over instances x "
-            "batch contexts x weight seeds.",
+            "batch contexts x weight seeds. Also: AM on DPP/MDPP, MatNet's multi-stage FFSP policy (randomness pinned per stage), the heat-map policy machinery, the library's own attention function, models decoding instances of another size, evaluate_policy with several loader batch sizes.",
     "note": "Float-flip guard: an action difference only counts when the solo decode's smallest top-2 logit margin is >= 1e-5. "
             "A solo decode that raises is reported (batch size one is part of the property).",
     "technique": "runtime monitoring: metamorphic comparison of recorded greedy decodes (solo reference vs batch contexts) with logit-margin taps",
